@@ -33,7 +33,8 @@ RULES = {
 PROBES = ["control_transfers", "multi_packet_descriptor", "set_address_done", "line_coding_done", "stalled_requests", "stall_out_data_request",
           "bulk_out_acked", "bulk_out_naked", "bulk_out_duplicate", "bulk_in_packets", "bulk_in_zlp", "bulk_in_retransmitted",
           "rx_backpressure_cycles", "tx_gap_cycles", "tx_stalled_packets", "status_ep_naks",
-          "clear_halt_in_pipe", "clear_halt_out_pipe", "clear_halt_other_pipe", "clear_halt_skipped_in_doubt"]
+          "clear_halt_in_pipe", "clear_halt_out_pipe", "clear_halt_other_pipe", "clear_halt_skipped_in_doubt",
+          "endpoint_descriptors_checked"]
 META = {
     "components_real": ["USBSerialDevice", "ACMRequestHandlers", "StallOnlyRequestHandler", "USBDevice", "USBControlEndpoint",
                         "StandardRequestHandler", "GetDescriptorHandlerBlock", "USBStreamInEndpoint / USBInTransferManager",
@@ -542,6 +543,30 @@ def run(scn):
             probes["stalled_requests"] += 1
             if wlen and not (bm & 0x80):
                 probes["stall_out_data_request"] += 1
+    if not viol:
+        # what the host learns from the configuration descriptor it read must describe the data pipes it is then expected to
+        # use: a host sends OUT packets of up to the advertised wMaxPacketSize, and takes a shorter IN packet as the end of a
+        # transfer -- both bulk endpoints must advertise the packet size the device was built with (constructor parameter)
+        for rec in controls:
+            s_ = rec["setup"]
+            if s_[0] == 0x80 and s_[1] == 6 and s_[3] == 2 and rec["data_stage"] == "done" and len(rec["data"]) > 9:
+                raw = rec["data"]
+                total = raw[2] | (raw[3] << 8)
+                if len(raw) < total:
+                    continue
+                o = 0
+                while o + 2 <= len(raw) and raw[o] >= 2:
+                    if raw[o + 1] == 5 and o + 6 <= len(raw) and (raw[o + 2] & 0x0F) == DATA_EP and (raw[o + 3] & 3) == 2:
+                        adv = raw[o + 4] | (raw[o + 5] << 8)
+                        probes["endpoint_descriptors_checked"] += 1
+                        if adv != mps:
+                            viol.add("C57.enumerates", rec["t"], f"configuration descriptor: bulk endpoint {raw[o + 2]:#04x} advertises "
+                                     f"wMaxPacketSize {adv}, the device was built with max_packet_size={mps}", kind="endpoint_packet_size",
+                                     request="GET_DESCRIPTOR", **shape)
+                            break
+                    o += raw[o]
+            if viol:
+                break
     if not viol:
         for kind_, what, t in in_events:
             viol.add("C57.device_to_host", t, f"bulk IN token answered with {what}", kind="bad_answer", **shape)
